@@ -255,3 +255,43 @@ fn c02_false_twin() {
     check_frame!("C02.raw", b, r, |v| (&v.hdr, v.data));
     vassert!(false, "C02.false_twin");
 }
+
+/// A complete handshake record never answers Incomplete either: an inner message that is cut short by the
+/// record boundary (or whose body parser fails) comes out as an error. Body parsers stubbed (rule R3).
+#[kani::proof]
+#[kani::unwind(5)]
+#[kani::stub(tp::parse_tls_handshake_msg_hello_request, crate::c04::st_hello_request)]
+#[kani::stub(tp::parse_tls_handshake_msg_client_hello, crate::c04::st_client_hello)]
+#[kani::stub(tp::parse_tls_handshake_msg_server_hello, crate::c04::st_server_hello)]
+#[kani::stub(tp::parse_tls_handshake_msg_newsessionticket, crate::c04::st_nst)]
+#[kani::stub(tp::parse_tls_handshake_msg_hello_retry_request, crate::c04::st_hrr)]
+#[kani::stub(tp::parse_tls_handshake_msg_certificate, crate::c04::st_cert)]
+#[kani::stub(tp::parse_tls_handshake_msg_serverkeyexchange, crate::c04::st_ske)]
+#[kani::stub(tp::parse_tls_handshake_msg_certificaterequest, crate::c04::st_certreq)]
+#[kani::stub(tp::parse_tls_handshake_msg_serverdone, crate::c04::st_done)]
+#[kani::stub(tp::parse_tls_handshake_msg_certificateverify, crate::c04::st_certverify)]
+#[kani::stub(tp::parse_tls_handshake_msg_clientkeyexchange, crate::c04::st_cke)]
+#[kani::stub(tp::parse_tls_handshake_msg_finished, crate::c04::st_finished)]
+#[kani::stub(tp::parse_tls_handshake_msg_certificatestatus, crate::c04::st_certstatus)]
+#[kani::stub(tp::parse_tls_handshake_msg_key_update, crate::c04::st_keyupdate)]
+#[kani::stub(tp::parse_tls_handshake_msg_next_protocol, crate::c04::st_npn)]
+fn c02_plaintext_handshake_6() {
+    const L: usize = 6;
+    let mut buf: [u8; 5 + L + 2] = kani::any();
+    buf[0] = 0x16;
+    buf[3] = 0;
+    buf[4] = L as u8;
+    let fail: bool = kani::any();
+    unsafe {
+        crate::c04::M_FAIL = fail;
+    }
+    let b = &buf[..];
+    let r = ManuallyDrop::new(tp::parse_tls_plaintext(b));
+    vassert!(class(&r) != Class::Incomplete, "C02.plaintext.complete_record_never_incomplete");
+    if let Ok((rem, p)) = &*r {
+        vassert!(is_sub(b, rem, 5 + L, 2), "C02.plaintext.real.remainder_exact");
+        vassert!(p.msg.len() >= 1, "C02.plaintext.handshake.at_least_one_message");
+        vcover!(p.msg.len() == 1, "C02.plaintext.real.cover.ok");
+    }
+    vcover!(r.is_err(), "C02.plaintext.real.cover.rejected");
+}
